@@ -462,23 +462,30 @@ impl ValueTable {
 
 			let filled = self.filled.load(Ordering::Relaxed);
 			let last_removed = self.last_removed.load(Ordering::Relaxed);
+			// The header and the chain of removed entries come from the file (or from a log
+			// record that was replayed into it) and are not trusted: every link has to lie
+			// inside the file, and a chain can't be longer than the file has entries (a longer
+			// one revisits an entry, i.e. loops).
+			let capacity = self.file.capacity.load(Ordering::Relaxed);
 
 			let mut next = last_removed;
 			while next != 0 {
-				if next >= filled {
+				if next >= filled || next >= capacity || stack.len() as u64 >= capacity {
 					return Err(crate::error::Error::Corruption(format!(
 						"Bad removed ref {} out of {}",
 						next, filled
 					)))
 				}
 
-				stack.insert(0, next);
+				stack.push(next);
 
 				let mut buf = PartialEntry::new_uninit();
 				self.file.read_at(buf.as_mut(), next * self.entry_size as u64)?;
 				buf.skip_size();
 				next = buf.read_next();
 			}
+			// Most recently removed entry on top.
+			stack.reverse();
 
 			Some(RwLock::new(FreeEntries { stack }))
 		} else {
